@@ -265,9 +265,13 @@ impl<'a, T> Iterator for SetIter<'a, T> {
 // timed out at 900-2400 s or exhausted 10-16 GB.) A fourth distinct key is a VERIF-MODEL-BOUND.
 // ---------------------------------------------------------------------------------------------
 pub struct BTreeMap<K, V> {
-    pub a: Option<Box<(K, V)>>,
-    pub b: Option<Box<(K, V)>>,
-    pub c: Option<Box<(K, V)>>,
+    // INLINE slots (unlike the HashMap stand-in): CBMC does not propagate constants through heap
+    // objects, so a boxed (u8, KBucket) entry made every bucket length symbolic and every loop over a
+    // bucket ran to the unwinding bound; the entries are small (a key and a Vec header), so moving
+    // them on insertion is cheap.
+    pub a: Option<(K, V)>,
+    pub b: Option<(K, V)>,
+    pub c: Option<(K, V)>,
 }
 
 impl<K, V> core::fmt::Debug for BTreeMap<K, V> {
@@ -342,7 +346,7 @@ impl<K: Ord, V> BTreeMap<K, V> {
 
     /// inserts (k, v) keeping a < b < c; k must be absent
     fn insert_new(&mut self, k: K, v: V) {
-        let e = Box::new((k, v));
+        let e = (k, v);
         if self.a.is_none() {
             self.a = Some(e);
         } else if self.b.is_none() {
@@ -383,11 +387,11 @@ impl<K: Ord, V> BTreeMap<K, V> {
     }
 
     pub fn values(&self) -> BValues<'_, K, V> {
-        BValues { a: self.a.as_deref(), b: self.b.as_deref(), c: self.c.as_deref() }
+        BValues { a: self.a.as_ref(), b: self.b.as_ref(), c: self.c.as_ref() }
     }
 
     pub fn iter(&self) -> BIter<'_, K, V> {
-        BIter { a: self.a.as_deref(), b: self.b.as_deref(), c: self.c.as_deref() }
+        BIter { a: self.a.as_ref(), b: self.b.as_ref(), c: self.c.as_ref() }
     }
 }
 
